@@ -1,4 +1,8 @@
--- Root of the `Jsonapi` library.
+-- Root of the `Jsonapi` library: everything, including all property modules.
 import Jsonapi.Basic.Core
 import Jsonapi.Basic.Sx
 import Jsonapi.Model.Schema
+import Jsonapi.Generated.Facts
+import Jsonapi.Props.C14
+import Jsonapi.Props.C15
+import Jsonapi.Props.C16
